@@ -19,6 +19,11 @@ pub struct PrssStats {
     pub draws: usize,
     pub distinct_keys: usize,
     pub max_offset: u32,
+    /// (step, index:offset) keys drawn at least 12 times (= on two or more shards of all three helpers) whose draws take
+    /// only 3 distinct values: every shard of a helper pair saw the same value (what cross-shard randomness looks like)
+    pub keys_replicated_over_shards: usize,
+    /// keys with more than 3 distinct values: shards of one helper pair drew different values (per-shard randomness)
+    pub keys_with_per_shard_values: usize,
 }
 
 /// Is this panic text the debug-build PRSS reuse detector?
@@ -73,6 +78,24 @@ pub fn end(rec: &mut Recorder, label: &str, witness: Value) -> PrssStats {
         }
     }
     stats.distinct_keys = seen.len();
+    {
+        let mut per_key: HashMap<(&str, u128), (u32, Vec<u128>)> = HashMap::new();
+        for d in &draws {
+            let Some(k) = ctx.get(&d.generator) else { continue };
+            let e = per_key.entry((k.as_str(), d.index)).or_insert((0, Vec::new()));
+            e.0 += 1;
+            if !e.1.contains(&d.value) {
+                e.1.push(d.value);
+            }
+        }
+        for (n, vals) in per_key.values() {
+            if vals.len() > 3 {
+                stats.keys_with_per_shard_values += 1;
+            } else if *n >= 12 && vals.len() == 3 {
+                stats.keys_replicated_over_shards += 1;
+            }
+        }
+    }
     rec.add("prss_draws_checked", stats.draws as u64);
     rec.add("prss_generators_seen", stats.generators as u64);
     stats
